@@ -1,6 +1,7 @@
 """Filters for Python STIX2 DataSources, DataSinks, DataStores"""
 
 import collections
+import collections.abc
 from datetime import datetime
 import re
 
@@ -192,6 +193,11 @@ def _check_filter(filter_, stix_obj):
     # For properties like granular_markings and external_references
     # need to extract the first property from the string.
     prop = filter_.property.split('.')[0]
+
+    if not isinstance(stix_obj, collections.abc.Mapping):
+        # a path step into something which has no members (text, a number):
+        # there is nothing there for the filter to hold for
+        return False
 
     if prop not in stix_obj.keys():
         # check filter "property" is in STIX object - if cant be
